@@ -91,6 +91,11 @@ pub fn is_point(site: &str) -> bool {
             | "exec.state.finish_setting_waker"
             | "exec.remote.write_waker"
             | "exec.state.set_cancelled"
+            | "exec.remote.enter"
+            | "exec.remote.leave"
+            | "exec.remote.drop_stale_waker"
+            | "exec.task.wait_scheduling"
+            | "exec.task.wait_spin"
     )
 }
 
